@@ -221,7 +221,7 @@ func ambiguous(l, r []int, mode int) bool {
 }
 
 func main() {
-	tr.Main("C11: every pair of sequences over 2 symbols to length 6 (quick) / 8 (thorough), over 3 symbols to length 4 / 5, over 2 keys x 2 payloads under the two key equivalences (v%2, v/2) to length 3 / 4; random pairs derived from a common base by dropping, inserting and overwriting runs (long common runs), over 2-4 symbols (heavy repetition), lengths to 60 (a few to 200), under ==, under key equivalences mod 2..4 and div 2..3, and (correspondence only, outside the precondition) under a non-transitive, an irreflexive and a non-symmetric relation, where the real code can panic and the model must predict it; and under a partial equivalence (3 related to nothing, as NaN under ==), which the theorems cover. In the aliased family both arguments are windows of ONE array (identical, same start with different lengths, nested, shifted, overlapping, disjoint). Every other input is a window into a larger array with guards in front and a spare capacity of 0..3 elements behind (sentinels, or elements of the alphabet). L lines (long.go): the same through []float64 (+0 / -0 / NaN), []string (equal text in distinct storage) and []struct (key with ignored payload) with the script read again after every element of both arrays was overwritten; small scopes at every type, random medium pairs, and long inputs with more than 4096 equal position pairs per call (random binary sequences of 100-300 elements, all-equal and periodic sequences, long views of one array), their outputs bounded by digests. Round 4 (round4.go): cases of every line form once more behind preludes (P lines: a recovered panic inside eq at the first call, mid-way, in the last row, at the last call of the table or in the re-matching loops, on []int and through == on []any; a much larger call that runs to its end; postludes between the call and the reading of its script; pools emptied before each); []string of pairs with equal 32-bit hashes (FNV-1/1a, CRC-32, Adler-32, 31/33-polynomials, sdbm) aligned and adjacent, strings of every length 1..600 one byte apart; every length 0..600 of one side against a thin other side; ints above 2^53. Round 5 (round5.go): BOTH inputs long -- every L in 0..300 against L, L+1, L-1 and 2L (either order) in two of seven shapes per pair (all equal; the same distinct elements, every element twice on the longer side; exactly one common element; random; derived from a common base; one side reversed; periodic -- thorough: all seven) on ints, int16, floats with both zeros, strings with equal text, structs with ignored payload and a 40-byte comparable struct; a duplicate-free side of every length 1..100 (300) against the same sequence with ONE key twice (in place, a few places later, at either end), both argument orders, on ints, strings and pointers; two views of one array of every length 0..300 (s and s[:k] in both orders, two adjacent halves); lines above 65 x 130 elements (S) are judged by the property alone (every clause of C11 on the script as returned, the LCS table written on arrays) and are not replayed on the model; calls back into the package from inside the case's own eq (P @j:...), complete or panicking inside and recovered there; []byte, []int16, []float32, a 40-byte struct whose last byte alone tells elements apart, pointers to equal ints; one input of exactly 2^15 and 2^16-1, 2^16, 2^16+1 elements against a thin one; every other int line of the public EditScript through a named slice type. Non-trivial = a side repeats an element (ambiguous alignment); distinct = distinct input lines.",
+	tr.Main("C11: every pair of sequences over 2 symbols to length 6 (quick) / 8 (thorough), over 3 symbols to length 4 / 5, over 2 keys x 2 payloads under the two key equivalences (v%2, v/2) to length 3 / 4; random pairs derived from a common base by dropping, inserting and overwriting runs (long common runs), over 2-4 symbols (heavy repetition), lengths to 60 (a few to 200), under ==, under key equivalences mod 2..4 and div 2..3, and (correspondence only, outside the precondition) under a non-transitive, an irreflexive and a non-symmetric relation, where the real code can panic and the model must predict it; and under a partial equivalence (3 related to nothing, as NaN under ==), which the theorems cover. In the aliased family both arguments are windows of ONE array (identical, same start with different lengths, nested, shifted, overlapping, disjoint). Every other input is a window into a larger array with guards in front and a spare capacity of 0..3 elements behind (sentinels, or elements of the alphabet). L lines (long.go): the same through []float64 (+0 / -0 / NaN), []string (equal text in distinct storage) and []struct (key with ignored payload) with the script read again after every element of both arrays was overwritten; small scopes at every type, random medium pairs, and long inputs with more than 4096 equal position pairs per call (random binary sequences of 100-300 elements, all-equal and periodic sequences, long views of one array), their outputs bounded by digests. Round 4 (round4.go): cases of every line form once more behind preludes (P lines: a recovered panic inside eq at the first call, mid-way, in the last row, at the last call of the table or in the re-matching loops, on []int and through == on []any; a much larger call that runs to its end; postludes between the call and the reading of its script; pools emptied before each); []string of pairs with equal 32-bit hashes (FNV-1/1a, CRC-32, Adler-32, 31/33-polynomials, sdbm) aligned and adjacent, strings of every length 1..600 one byte apart; every length 0..600 of one side against a thin other side; ints above 2^53. Round 5 (round5.go): BOTH inputs long -- every L in 0..300 against L, L+1, L-1 and 2L (either order) in two of seven shapes per pair (all equal; the same distinct elements, every element twice on the longer side; exactly one common element; random; derived from a common base; one side reversed; periodic -- thorough: all seven) on ints, int16, floats with both zeros, strings with equal text, structs with ignored payload and a 40-byte comparable struct; a duplicate-free side of every length 1..100 (300) against the same sequence with ONE key twice (in place, a few places later, at either end), both argument orders, on ints, strings and pointers; two views of one array of every length 0..300 (s and s[:k] in both orders, two adjacent halves); lines above 65 x 130 elements (S) are judged by the property alone (every clause of C11 on the script as returned, the LCS table written on arrays) and are not replayed on the model; calls back into the package from inside the case's own eq (P @j:...), complete or panicking inside and recovered there; []byte, []int16, []float32, a 40-byte struct whose last byte alone tells elements apart, pointers to equal ints; one input of exactly 2^15 and 2^16-1, 2^16, 2^16+1 elements against a thin one; every other int line of the public EditScript through a named slice type. Round 6 (round6.go): constructed LARGE inputs above 2^20 and 2^24 table cells (1100 x 2200 and 4100 x 4101 elements; thorough: lengths around the square roots of 2^20 .. 2^24 against the same length, one more and twice the length, thin-against-long pairs) made of blocks of different elements so that the LCS is known from the construction -- lhs ++ junk, junk ++ lhs, a block inserted into / removed from the middle, the shorter input around the middle of the longer or split k : n-k between its two ends, every second element, long common prefix / suffix with a Replace, ONE element inserted into a run of 1, 2, 5 identical elements (common prefix and suffix overlap), x y x y against x y, one element doubled -- in both argument orders, on ints and strings; S lines: minimality decided by kept = (elements shared as multisets) where that bound is reached, by the table on arrays otherwise. Non-trivial = a side repeats an element (ambiguous alignment); distinct = distinct input lines.",
 		exec, func(g *tr.G) {
 			// round 4, first: cases behind preludes (round4.go; first, while the heap is small: every
 			// one of them starts with two garbage collections)
@@ -490,5 +490,7 @@ func main() {
 			// round 5: two-sided sweeps, one repeated key, shared storage at every length, more element
 			// types (round5.go)
 			round5(g, allSeqs)
+			// round 6: constructed large cases, above 2^20 and 2^24 table cells (round6.go)
+			genConstructed(g)
 		})
 }
